@@ -98,13 +98,17 @@ pub async fn handle_notify_get_or_head(
         return Err(req)
     }
 
+    // Subscribe before checking the version. Otherwise an update happening
+    // between the check and the subscription would go unnoticed.
+    let mut notify = notify.subscribe();
+
     let wait = match need_wait(&req, history) {
         Ok(wait) => wait,
         Err(resp) => return Ok(resp),
     };
 
     if wait {
-        notify.subscribe().recv().await;
+        notify.recv().await;
     }
 
     if req.is_head() {
